@@ -6,39 +6,10 @@ from .. import core, model as M, binding as B, selftest, conform
 from .c01 import DELIVERED_ALPHABET
 
 
-def judge_input(n, conn, gens, fmt):
-    """gens: ANY list of n Hermitian Paulis (valid or not).  Returns (messages, outcome tag)."""
+def judge_requests(shared, n, conn, gens, order, valid, msgs, parts):
+    """Ask for preparation and readout circuits on the Stabilizer object `shared` (in the given order) and judge the
+    outcomes against the operators `gens` the object currently holds."""
     from .. import impl
-    valid = M.is_valid(gens, n)
-    msgs = []
-    if fmt == "strings":
-        def make(validate=False):
-            return impl.Stabilizer(M.gens_str(gens, n), validate=validate)
-    else:
-        def make(validate=False):
-            R, S, ph = impl.gens_to_matrices(gens, n)
-            return impl.Stabilizer((R, S, ph), validate=validate)
-    stab = make()
-    try:
-        v = bool(stab.validate())
-    except Exception as ex:      # noqa: BLE001
-        v = "raised %s" % type(ex).__name__
-    if v != valid:
-        msgs.append("validate() = %r, the operators are %s" % (v, "n commuting independent Paulis" if valid else "not a valid stabilizer"))
-    try:
-        make(validate=True)
-        ctor = True
-    except AssertionError:
-        ctor = False
-    except Exception as ex:      # noqa: BLE001
-        ctor = "raised %s" % type(ex).__name__
-    if ctor != valid:
-        msgs.append("Stabilizer(..., validate=True) %s, the operators are %s" % ("accepted" if ctor is True else "rejected: %r" % ctor, "valid" if valid else "invalid"))
-    # preparation and readout are requested on ONE Stabilizer object, in an order that alternates from case to case
-    shared = make()
-    tag = ""
-    order = ("prep", "readout") if (sum(p[0] * 3 + p[1] for p in gens) + n) % 2 == 0 else ("readout", "prep")
-    parts = {}
     for which in order:
         if which == "prep":
             try:
@@ -82,6 +53,62 @@ def judge_input(n, conn, gens, fmt):
                             break
             elif valid:
                 msgs.append("readout raised on a valid stabilizer (%s)" % parts["readout"])
+
+
+def judge_edit(n, conn, gens_a, gens_b):
+    """One caller-held Stabilizer object: circuits are requested for the operators A, the caller then overwrites
+    the object's matrices IN PLACE with the operators B (valid or not), and circuits are requested again.
+    The second round is judged against B exactly as a fresh request would be."""
+    from .. import impl
+    Ra, Sa, pa = impl.gens_to_matrices(gens_a, n)
+    shared = impl.Stabilizer((Ra, Sa, pa))
+    msgs_a, parts_a = [], {}
+    order = ("readout", "prep") if (sum(p[0] for p in gens_b) + n) % 2 == 0 else ("prep", "readout")
+    judge_requests(shared, n, conn, gens_a, order, M.is_valid(gens_a, n), msgs_a, parts_a)
+    Rb, Sb, pb = impl.gens_to_matrices(gens_b, n)
+    shared.R[...] = Rb
+    shared.S[...] = Sb
+    shared.phases[...] = pb
+    msgs, parts = [], {}
+    valid = M.is_valid(gens_b, n)
+    judge_requests(shared, n, conn, gens_b, order, valid, msgs, parts)
+    pre = "after circuits for %s were requested on the same object and its matrices were overwritten in place: " % (M.gens_str(gens_a, n),)
+    return msgs_a + [pre + m for m in msgs], ("valid " if valid else "invalid ") + parts.get("prep", "") + " " + parts.get("readout", "")
+
+
+def judge_input(n, conn, gens, fmt):
+    """gens: ANY list of n Hermitian Paulis (valid or not).  Returns (messages, outcome tag)."""
+    from .. import impl
+    valid = M.is_valid(gens, n)
+    msgs = []
+    if fmt == "strings":
+        def make(validate=False):
+            return impl.Stabilizer(M.gens_str(gens, n), validate=validate)
+    else:
+        def make(validate=False):
+            R, S, ph = impl.gens_to_matrices(gens, n)
+            return impl.Stabilizer((R, S, ph), validate=validate)
+    stab = make()
+    try:
+        v = bool(stab.validate())
+    except Exception as ex:      # noqa: BLE001
+        v = "raised %s" % type(ex).__name__
+    if v != valid:
+        msgs.append("validate() = %r, the operators are %s" % (v, "n commuting independent Paulis" if valid else "not a valid stabilizer"))
+    try:
+        make(validate=True)
+        ctor = True
+    except AssertionError:
+        ctor = False
+    except Exception as ex:      # noqa: BLE001
+        ctor = "raised %s" % type(ex).__name__
+    if ctor != valid:
+        msgs.append("Stabilizer(..., validate=True) %s, the operators are %s" % ("accepted" if ctor is True else "rejected: %r" % ctor, "valid" if valid else "invalid"))
+    # preparation and readout are requested on ONE Stabilizer object, in an order that alternates from case to case
+    shared = make()
+    order = ("prep", "readout") if (sum(p[0] * 3 + p[1] for p in gens) + n) % 2 == 0 else ("readout", "prep")
+    parts = {}
+    judge_requests(shared, n, conn, gens, order, valid, msgs, parts)
     tag = parts.get("prep", "") + " " + parts.get("readout", "")
     return msgs, ("valid " if valid else "invalid ") + tag
 
@@ -96,13 +123,19 @@ def _work(payload):
         gens = M.parse_gens(strs)
         cnt += 1
         try:
-            msgs, tag = judge_input(n, conn, gens, fmt)
+            if isinstance(fmt, (list, tuple)):          # in-place edit: fmt holds the operators the object held before
+                msgs, tag = judge_edit(n, conn, M.parse_gens(list(fmt)), gens)
+            else:
+                msgs, tag = judge_input(n, conn, gens, fmt)
         except Exception as ex:      # noqa: BLE001
             msgs, tag = ["harness-visible exception %s: %s" % (type(ex).__name__, ex)], "error"
         tags[tag] = tags.get(tag, 0) + 1
         if not tag.startswith("valid"):
             nontriv += 1
-        case = {"kind": "input", "n": n, "conn": conn, "gens": list(strs), "fmt": fmt}
+        if isinstance(fmt, (list, tuple)):
+            case = {"kind": "edit", "n": n, "conn": conn, "gens": list(strs), "before": list(fmt)}
+        else:
+            case = {"kind": "input", "n": n, "conn": conn, "gens": list(strs), "fmt": fmt}
         if msgs:
             cj = hist.attach(case)
             for m in msgs[:2]:
@@ -293,6 +326,40 @@ def check(ctx):
                     continue
                 items.append((n, confs[(i + k) % len(confs)], M.gens_str(dev, n), ("matrices", "strings")[k % 2]))
         units.append(("n=%d: deviations of rotated table graph states" % n, items))
+    # ---- one Stabilizer object whose matrices the caller overwrites in place between two rounds of requests
+    g2 = B.sg(2)
+    items = []
+    for i in range(g2.N):
+        a = M.gens_str(g2.gens(i, i % 4), 2)
+        for code in P2:
+            items.append((2, "all", M.gens_str(gens_from_code(2, code), 2), a))
+    units.append(("n=2: every valid group, then in-place overwrite with each of the 256 (R,S) pairs, same object", items))
+    items = []
+    for i in range(g3.N):
+        a = M.gens_str(g3.gens(i, i % 8), 3)
+        for k, j in enumerate(((i + 1) % g3.N, (i + 37) % g3.N, (i * 7 + 3) % g3.N)):
+            items.append((3, ("all", "linear")[(i + k) % 2], M.gens_str(g3.gens(j, (i + k) % 8), 3), a))
+        for k, dev in enumerate(deviations(g3.gens((i + 1) % g3.N, i % 8), 3)[i % 3::(6 if quick else 1)]):
+            items.append((3, ("all", "linear")[k % 2], M.gens_str(dev, 3), a))
+    units.append(("n=3: every valid group, then in-place overwrite with other valid groups and deviations, same object", items))
+    items = []
+    confs = M.configs_for(4)
+    for i in range(0, g4.N, (16 if quick else 2)):
+        a = M.gens_str(g4.gens(i, i % 16), 4)
+        j = (i * 5 + 1) % g4.N
+        items.append((4, confs[i % 4], M.gens_str(g4.gens(j, j % 16), 4), a))
+        devs = deviations(g4.gens(j, j % 16), 4)
+        items.append((4, confs[(i + 1) % 4], M.gens_str(devs[i % len(devs)], 4), a))
+    for n in (5, 6):
+        confs_n = M.configs_for(n)
+        gids = conform.table_graphs(n, "all")[::(3 if n == 5 else (40 if quick else 6))]
+        prev = None
+        for i, gid in enumerate(gids):
+            cur = M.run(M.local_layer_gates([(i + 2 * q) % 6 for q in range(n)]), n, B.graph_states_gens(n, gid))
+            if prev is not None:
+                items.append((n, confs_n[i % len(confs_n)], M.gens_str(cur, n), M.gens_str(prev, n)))
+            prev = cur
+    units.append(("n=4,5,6: valid group, then in-place overwrite with another group or a deviation, same object", items))
     alltags = {}
     for label, items in units:
         ctx.phase("%s (%d inputs)" % (label, len(items)))
@@ -304,7 +371,7 @@ def check(ctx):
             for t, c in tags.items():
                 alltags[t] = alltags.get(t, 0) + c
             for m, case in sorted(fails, key=lambda t: core.canon_json(t[1])):
-                ctx.violation(case, "input: n=%d %s %s %s: %s" % (case["n"], case["conn"], case["fmt"], case["gens"], m))
+                ctx.violation(case, "input: n=%d %s %s %s: %s" % (case["n"], case["conn"], case.get("fmt", "in-place edit"), case["gens"], m))
         ctx.bounds.setdefault("explored", {})[label] = len(items)
     ctx.notes["outcome_classes"] = dict(sorted(alltags.items()))
     ctx.sample({"n": 2, "gens": ["+XI", "+ZI"], "valid": False, "expected": "preparation raises; readout raises or diagonalises both"})
@@ -327,4 +394,9 @@ def replay_available(body):
     return None if sorted(avail, key=str) == sorted(M.CONFIGS, key=str) and len(avail) == len(set(avail)) else repr(avail)
 
 
-REPLAY = {"input": replay_input, "gate": lambda b: judge_gate(b["entry"], b["n"], b["name"]), "available": replay_available}
+def replay_edit(body):
+    msgs, _ = judge_edit(body["n"], body["conn"], M.parse_gens(body["before"]), M.parse_gens(body["gens"]))
+    return "; ".join(msgs) if msgs else None
+
+
+REPLAY = {"edit": replay_edit, "input": replay_input, "gate": lambda b: judge_gate(b["entry"], b["n"], b["name"]), "available": replay_available}
